@@ -234,7 +234,7 @@ def run_unit_group(units, repo="/repo", jobs=None, keep=False, tier="quick", onl
     cwd = os.path.join(root, d)
     env = dict(os.environ)
     env["CARGO_NET_OFFLINE"] = "true"
-    target = os.path.join(CACHE, "kani-target")
+    target = os.environ.get("VERIF_KANI_TARGET") or os.path.join(CACHE, "kani-target")
     os.makedirs(target, exist_ok=True)
     env["CARGO_TARGET_DIR"] = target
     flags = []
@@ -267,7 +267,7 @@ def run_unit_group(units, repo="/repo", jobs=None, keep=False, tier="quick", onl
             o = e.stdout or ""
             return (o if isinstance(o, str) else o.decode("utf-8", "replace")), -9
     # serialise cargo-kani builds sharing the target dir
-    lock = open(os.path.join(CACHE, "kani.lock"), "w")
+    lock = open(os.path.join(target, ".verif-kani.lock"), "w")
     fcntl.flock(lock, fcntl.LOCK_EX)
     try:
         out, rc = run(cmd, maxto * 2 + 1800)
@@ -328,7 +328,7 @@ def native_replay(cwd, harness, concrete_vals, timeout=3000):
     vals = ";".join(",".join(str(b) for b in v["bytes"]) for v in concrete_vals)
     env = dict(os.environ)
     env["CARGO_NET_OFFLINE"] = "true"
-    env["CARGO_TARGET_DIR"] = os.path.join(CACHE, "replay-target")
+    env["CARGO_TARGET_DIR"] = os.environ.get("VERIF_REPLAY_TARGET") or os.path.join(CACHE, "replay-target")
     env["RUSTFLAGS"] = (env.get("RUSTFLAGS", "") + " --cfg verif_replay -A unexpected_cfgs -A warnings").strip()
     env["VERIF_REPLAY_VALS"] = vals
     cmd = ["cargo", "test", "--offline", "--lib", "--", "%s::replay" % harness, "--nocapture", "--test-threads", "1"]
